@@ -14,5 +14,6 @@ struct Model {
 Model create(int randReset, unsigned seed);
 void load(Model &m, const char *filename);                                   // hextb.cpp::load (prints the banner to std::cout)
 int run(Model &m, bool trace, size_t maxCycles, int *kind, std::string *err);  // hextb.cpp::run inside main's try/catch
-int tb_main(int argc, const char **argv);                                    // hextb.cpp::main
+int tb_main(int argc, const char **argv);
+void close_streams();   // closes (flushes) the simin/simout files the testbench's global HexSimIO has opened                                    // hextb.cpp::main
 }  // namespace tb
